@@ -19,6 +19,9 @@ checks = {
  "C03": ("exploration", "small-scope exhaustive enumeration of scope skeletons over a two-name pool, differential against a reference evaluator with textbook lexical scopes",
          "all chains of 27 scope contexts to length 3 (thorough 4) over 6 leaves reading/writing x and y, every binding a distinct integer, evaluated on a fresh real interpreter and on R1; the returned integers identify the binding seen",
          "trusts R1's environment model as the definition of lexical scoping; integer bindings only; bounded nesting", "§3 C03"),
+ "C16": ("exploration", "small-scope exhaustive enumeration of lazy/strict signatures x usages x call routes, differential against a reference evaluator (memoised thunks over the caller's scope)",
+         "all 28 signatures of 1..3 strict/lazy parameters (with/without variadic tail) x all assignments of 7 usages to the lazy ones x 9 call routes x failing/zero/normal argument choices x 0..2 variadic extras; count and order of argument evaluations (host-call trace), values and errors must equal R1's",
+         "trusts R1's thunk model; typed func declarations are not generated; bounded to 3 parameters", "§3 C16"),
 }
 all_ids = ["C%02d" % i for i in range(1, 21)]
 pending = {i: "check not built yet in this tree (see DESIGN.md §7 build order); will be claimed when its machinery lands" for i in all_ids if i not in checks}
